@@ -1166,6 +1166,43 @@ def nested_wrapper_cases(ctx):
     return n
 
 
+def short_lived_wrapper_cases(ctx):
+    """A sender broadcasts through a MultiPort (or talks through an IOPort) it makes for the occasion and forgets again.  The
+    ports it wrapped belong to the program: they stay open, what was sent is received, the next sender can use them."""
+    import gc
+    n = 0
+    for wrapper in ('multiport', 'multiport-generator-arg'):      # (an IOPort owns the pair it wraps and closes it: not judged)
+        for rounds in (1, 3):
+            case = {'kind': 'short-lived-wrapper', 'wrapper': wrapper, 'rounds': rounds}
+            try:
+                e0, e1 = EchoPort('s0'), EchoPort('s1')
+                sent = []
+                for r in range(rounds):
+                    m = make_msg(r, 0, 0)
+
+                    def talk():
+                        if wrapper == 'multiport':
+                            MultiPort([e0, e1]).send(m)
+                        elif wrapper == 'multiport-generator-arg':
+                            MultiPort(p for p in (e0, e1)).send(m)
+                        else:
+                            IOPort(e0, e1).send(m)          # output side is e1
+                    talk()
+                    gc.collect()
+                    sent.append(msg_tag(m))
+                    ctx.check('no call raises', not e0.closed and not e1.closed, 'short-lived-wrapper:members-closed', case,
+                              {'round': r, 'closed': [e0.closed, e1.closed]})
+                got1 = [msg_tag(x) for x in e1.iter_pending()]
+                got0 = [msg_tag(e0.receive(block=False))] if wrapper != 'ioport' else []
+                ctx.check('exactly once (nothing lost, duplicated, invented)', got1 == sent and (wrapper == 'ioport' or got0 == sent[:1]),
+                          'short-lived-wrapper:delivery', case, lambda: {'e0': got0, 'e1': got1, 'sent': sent})
+                e0.closed = e1.closed = True
+            except Exception as exc:
+                ctx.check('no call raises', False, f'short-lived-wrapper:{type(exc).__name__}', case, f'{type(exc).__name__}: {exc}')
+            n += 1
+    return n
+
+
 def mixed_call_cases(ctx, count, only=None):
     """The degenerate interleavings - senders and the receiver taking turns, call by call - with the receiver switching
     between receive(block=False), poll() and iter_pending() (fully or partly consumed) as it pleases: each message
@@ -1363,7 +1400,7 @@ def run(ctx):
     sched.uninstall()
     nstress = 0
     if sh == 2 % N:
-        k_ = helper_argument_cases(ctx) + nested_wrapper_cases(ctx)
+        k_ = helper_argument_cases(ctx) + nested_wrapper_cases(ctx) + short_lived_wrapper_cases(ctx)
         ctx.nontrivial(None, k_)
         ctx.extra('helper_argument_cases', k_)
         nstress += k_
@@ -1397,6 +1434,9 @@ def run(ctx):
 def replay(ctx, case):
     if case.get('kind') == 'nested-wrappers':
         nested_wrapper_cases(ctx)
+        return
+    if case.get('kind') == 'short-lived-wrapper':
+        short_lived_wrapper_cases(ctx)
         return
     if case.get('kind') == 'socket-big-message':
         big_message_over_socket_cases(ctx)
